@@ -1173,3 +1173,7 @@ assert "does not judge them either" not in PROPS["C14"]["partial_gap"]
 #      ring views with the final population there is C02's claim too.  A panicking poll never passes the token on (C13).
 PROPS["C02"]["also"] = [("C06", "views"), ("C06", "rotation")]
 PROPS["C13"]["also"] = list(PROPS["C13"].get("also", [])) + [("C05", "panic")]
+#  C13 "no application ... is starved": the DP master must use the one message cycle the FDL grants it after the hold time
+#      (HighPrioOnly::Yes) for its peripherals; monitored in the dp domain as C14's turn_skipped_on_high_prio.
+PROPS["C13"]["domains"] = list(PROPS["C13"]["domains"]) + ["dp"]
+PROPS["C13"]["also"] = list(PROPS["C13"].get("also", [])) + [("C14", "turn_skipped_on_high_prio")]
